@@ -1421,6 +1421,11 @@ def check(pid, tier, manifest_rule):
         res.violation('statement', where(d) + ': ' + explain(None, flat[d], want[d], impl[d] if d < len(impl) else '<none>') +
                       '\nreplay: %d lines after the configuration (the smallest of: dependency slice / the history alone / with the earlier occupants '
                       'of its place / the whole script prefix -- whichever still reproduces)' % n, rt)
+    elif any(a.startswith('@foreign_string_') for _, a in other_bad):
+        k, a = next((k, a) for k, a in other_bad if a.startswith('@foreign_string_'))
+        res.violation('statement:foreign-string', '%s: `%s` answered one node for a String of its own Lexicon and ANOTHER node for a String with the same '
+                      'characters interned by another Lexicon (%s): names and atoms are told apart by spelling' % (where(k), flat[k] if 0 <= k < len(flat) else '?', a),
+                      '\n'.join(flat[:k + 1]))
     elif other_bad:
         k, a = other_bad[0]
         res.violation('config', 'the implementation disagrees with the tables read from the sources: %s after `%s`; every generated request '
